@@ -49,6 +49,8 @@ pub struct Event<'a> {
     pub hk: u8,
     /// the clone produced by Op::CloneCache
     pub clone: Option<&'a Obs>,
+    /// observation of the source of Op::CloneFrom before the call
+    pub clone_src: Option<&'a Obs>,
     /// capacity a fresh cache gets for `with_capacity(n)` — asked of the real library
     pub fresh_cap: &'a dyn Fn(usize) -> usize,
 }
@@ -246,6 +248,25 @@ pub fn check_event(ev: &Event, st: &mut Stats, out: &mut Vec<Viol>) {
     if (post.cur == 0) != post.empty { v(out, "C02", "zero-iff-empty", format!("after {}: current_size() = {} but is_empty() = {}", op.to_text(), post.cur, post.empty)); }
     if post.sum_rec() != post.cur as u128 { v(out, "C02", "cur!=sumrec", format!("after {}: current_size() = {} but recorded sizes sum to {}", op.to_text(), post.cur, post.sum_rec())); }
     for e in &post.ents { if e.rec as u128 != e.esize(base) { v(out, "C02", "rec!=esize", format!("after {}: entry {} is accounted with {} but entry_size(key, value) = {}", op.to_text(), e.id, e.rec, e.esize(base))); break; } }
+
+    // ------------------------------------------------------------ clone_from: the target becomes a clone of the source (C14); nothing else applies
+    if let (Op::CloneFrom { .. }, Some(src)) = (op, ev.clone_src) {
+        st.eval("C14", crate::rng::mix(&[300, len_class(src.len), len_class(pre.len), ev.hk as u64, (pre.cap < src.cap) as u64, (pre.max != src.max) as u64]));
+        st.count("c14_clone_from");
+        if pre.max != src.max { st.count("c14_clone_from_different_limits"); } if pre.cap < src.cap && pre.len > 0 { st.count("c14_clone_from_into_smaller_nonempty"); }
+        let a: Vec<_> = src.ents.iter().map(|e| (e.id, e.rec, e.kheap, e.vheap, e.stamp)).collect();
+        let b: Vec<_> = post.ents.iter().map(|e| (e.id, e.rec, e.kheap, e.vheap, e.stamp)).collect();
+        if a != b { v(out, "C14", "clone-contents", format!("after {}: target holds {:?}, source {:?}", op.to_text(), b, a)); }
+        if post.cur != src.cur || post.max != src.max || post.len != src.len { v(out, "C14", "clone-scalars", format!("after {}: target cur/max/len = {}/{}/{}, source {}/{}/{}", op.to_text(), post.cur, post.max, post.len, src.cur, src.max, src.len)); }
+        if post.cap < src.cap { v(out, "C14", "clone-capacity", format!("after {}: target capacity {} < source capacity {}", op.to_text(), post.cap, src.cap)); }
+        let src_uids: BTreeSet<u64> = src.ents.iter().flat_map(|e| [e.kuid, e.vuid]).collect();
+        if post.ents.iter().any(|e| src_uids.contains(&e.kuid) || src_uids.contains(&e.vuid)) || post.seal == src.seal { v(out, "C14", "clone-shares", format!("after {}: target shares objects or nodes with the source", op.to_text())); }
+        if !post.g2.is_empty() || !post.g3.is_empty() { v(out, "C14", "clone-structure", format!("after {}: the target is not a coherent cache: {:?} {:?}", op.to_text(), post.g2, post.g3)); }
+        st.eval("C20", crate::rng::mix(&[kind, len_class(src.len), 5]));
+        let h = ev.ticks[C_HASH];
+        if h > 2 + pre.len as u64 + src.len as u64 { v(out, "C20", "bound", format!("{} computed {} key hashes with {} entries in the source and {} leaving the target", op.to_text(), h, src.len, pre.len)); }
+        return;
+    }
 
     // ------------------------------------------------------------ C03
     if pre_nonempty || sp.may_evict {
